@@ -92,6 +92,6 @@ package resolver
 //@ func (*xdsResolver).addOrGetActiveClusterInfo
 //@   prop C51
 //@   requires r != nil && r.activeClusters != nil && r.activePlugins != nil
-//@   assert at return 1 name == "" && result0 != nil && haskey(r.activePlugins, key) && r.activePlugins[key] == result0 && implies(old(haskey(r.activePlugins, key)), result0 == old(r.activePlugins[key])) && ncalls("SubscribeToCluster") == 0
-//@   assert at return 2 name != "" && result0 != nil && haskey(r.activeClusters, key) && r.activeClusters[key] == result0 && implies(old(haskey(r.activeClusters, key)), result0 == old(r.activeClusters[key]) && ncalls("SubscribeToCluster") == 0)
+//@   assert at return 1 name == "" && haskey(r.activePlugins, key) && r.activePlugins[key] == result0 && implies(old(haskey(r.activePlugins, key)), result0 == old(r.activePlugins[key])) && ncalls("SubscribeToCluster") == 0
+//@   assert at return 2 name != "" && haskey(r.activeClusters, key) && r.activeClusters[key] == result0 && implies(old(haskey(r.activeClusters, key)), result0 == old(r.activeClusters[key]) && ncalls("SubscribeToCluster") == 0)
 //@   assert at call SubscribeToCluster#1 !haskey(r.activeClusters, key) && arg1 == name
